@@ -53,6 +53,8 @@ def opaque_expr(g, name, typ=None, not_ctors=(LoopIR.Const,)):
     typ = typ or T.index
     v = g.int("ev_" + name)
     if g.concrete:
+        if not any(issubclass(LoopIR.Const, n) for n in not_ctors):
+            return LoopIR.Const(v, typ, SRC)
         s = Sym(name)
         g.ghost.setdefault("rho", {})[id(s)] = (s, v)
         return LoopIR.Read(s, [], typ, SRC)
